@@ -4,6 +4,7 @@ import (
 	"fmt"
 	"io"
 	stdlog "log"
+	"strconv"
 	"strings"
 	"sync"
 
@@ -92,6 +93,8 @@ func actStrs(as []Act) []string {
 			out = append(out, fmt.Sprintf("io.WriteString(raw writer, %d bytes)", len(a.B)))
 		case "hj":
 			out = append(out, "Hijack()")
+		case "we":
+			out = append(out, fmt.Sprintf("WriteErrorString(%d,%s)", a.N, a.B))
 		case "wh":
 			out = append(out, fmt.Sprintf("writeHeader(%d)", a.N))
 		case "ah":
@@ -176,6 +179,44 @@ func shrink(cfg *Cfg, rq SReq, bad func(*Cfg, SReq) bool) (*Cfg, SReq) {
 	return cfg, rq
 }
 
+// mwMismatch checks the request side of "what a filter passes on is what later stages receive" for
+// adapted net/http middlewares: every stage must see the request the innermost middleware around it
+// handed on (its X-Verif-Mw header) — and which middleware that is follows from the response
+// wrappers the stage sees, which are compared with the model.
+func mwMismatch(cfg *Cfg, log []Event) string {
+	middle := map[int]bool{}
+	note := func(fs []Filter) {
+		for _, f := range fs {
+			if f.Kind == "middle" {
+				middle[f.ID] = true
+			}
+		}
+	}
+	note(cfg.CF)
+	for _, fs := range cfg.SvcF {
+		note(fs)
+	}
+	for _, rx := range cfg.RouteX {
+		note(rx.Filters)
+	}
+	for _, ev := range log {
+		if ev.Stage == "rec" {
+			continue // the recover handler gets no request
+		}
+		want := ""
+		for _, id := range ev.Wrappers {
+			if middle[id] {
+				want = strconv.Itoa(id)
+				break
+			}
+		}
+		if ev.Mw != want {
+			return fmt.Sprintf("stage %s (post=%v) sees the request of middleware %q, the innermost middleware around it is %q (wrappers %v)", ev.Stage, ev.Post, ev.Mw, want, ev.Wrappers)
+		}
+	}
+	return ""
+}
+
 // PropSpec says how a serve property reads the stream.
 type PropSpec struct {
 	ID      string
@@ -190,7 +231,7 @@ func Check(run *report.Run, p PropSpec, o GenOpts, n, maxLen int, stream string)
 	if err != nil {
 		return err
 	}
-	specFail, dis := 0, 0
+	specFail, dis, mwBad := 0, 0, 0
 	for _, h := range hs {
 		for i := range h.Reqs {
 			run.Evaluations++
@@ -213,6 +254,12 @@ func Check(run *report.Run, p PropSpec, o GenOpts, n, maxLen int, stream string)
 			}
 			if len(run.Samples) < 3 && run.Evaluations%97 == 0 {
 				run.Sample(map[string]interface{}{"input": Human(h, i), "real": fmt.Sprintf("%.400s", real.Canon(true))})
+			}
+			if p.ID == "C06" {
+				if m := mwMismatch(h.Cfg, real.Log); m != "" && mwBad < 3 {
+					mwBad++
+					reportOne(run, p, h, i, "counterexample", "the request an adapted net/http middleware passed on is not what a later stage received: "+m)
+				}
 			}
 			known := ""
 			if p.Known != nil {
